@@ -139,7 +139,7 @@ def handle (j : Json) : Except String Json := do
     let K : EventLoop.Kern Float :=
       ⟨Generated.LifFloat.advance tau r vl vt, Generated.LifFloat.nextSpikeTime tau r vl vt,
        Generated.LifFloat.applyReset tau r vl vt⟩
-    match EventLoop.init (0.0 : Float) v0 inputs recDt with
+    match EventLoop.init K (0.0 : Float) v0 inputs recDt with
     | none => pure (Json.mkObj [("err", .str "IndexError")])
     | some s0 =>
       match EventLoop.run K inputs recDt dur fuel s0 with
